@@ -21,15 +21,20 @@ def _cast_result(eng, st, env):
 def register(reg):
 	reg.contract(CM + 'c_jaccarddist',
 		requires=SORTED,
-		ensures=['result == D(coords1, coords2)'],
+		ensures=['result == D(coords1, coords2)',
+		         # C15: the same loop, read from the other side, counts the intersection from coords2:
+		         # the value is bit-for-bit symmetric and mentions element values only (width independent)
+		         'inter(coords1, coords2, len(coords1)) == inter(coords2, coords1, len(coords2))',
+		         'result == D(coords2, coords1)'],
 		loops={0: invariant(
 			'0 <= i <= N and 0 <= j <= M',
 			'N == len(coords1) and M == len(coords2)',
 			'u == i + j - inter(coords1, coords2, i)',
+			'u == i + j - inter(coords2, coords1, j)',
 			'implies(i < N, forall(r, 0 <= r, r < j, coords2[r] < coords1[i]))',
 			'implies(j < M, forall(q, 0 <= q, q < i, coords1[q] < coords2[j]))',
 			decreases='(N - i) + (M - j)',
-			use=['tail_lemma(coords1, coords2, i, N)'])},
+			use=['tail_lemma(coords1, coords2, i, N)', 'tail_lemma(coords2, coords1, j, M)'])},
 	)
 	reg.contract(CM + 'jaccarddist',
 		requires=SORTED,
